@@ -650,6 +650,7 @@ type wgenOpts struct {
 	shadowUse  bool // also use a shadowed module name outside the shadowing block (known finding: DependencyOrder)
 	vecInit    bool // allow vector-typed private-global initialisers (known finding: literal kinds)
 	negInit    bool // allow private-global initialisers that are not plain literals (e.g. -5i)
+	callInSwitch bool // put calls to value-returning helpers into switch clauses (C13: inliner rebuilds such switches)
 	flatRet    bool // early `return` only outside loops and switches (C13: the inliner mishandles nested returns)
 }
 
@@ -1303,7 +1304,29 @@ func (g *wgen) stmts(n, depth int) []*wstmt {
 // storeOut: observable effect — write a value into the output buffer at a fresh constant index.
 func (g *wgen) storeOut(depth int) *wstmt {
 	t := g.valueTy()
-	e := g.expr(t, depth)
+	return g.storeOutExpr(t, g.expr(t, depth))
+}
+
+// storeOutCall: store the result of a call to a value-returning helper (nil if there is none).
+func (g *wgen) storeOutCall() *wstmt {
+	var cands []*wfunc
+	for _, f := range g.funcs {
+		if f.ret != nil && (f.ret.isScalar() || f.ret.k == "vec") {
+			cands = append(cands, f)
+		}
+	}
+	if len(cands) == 0 {
+		return nil
+	}
+	t := cands[g.c.rng.Intn(len(cands))].ret
+	e := g.callfn(t, 2)
+	if e == nil {
+		return nil
+	}
+	return g.storeOutExpr(t, e)
+}
+
+func (g *wgen) storeOutExpr(t *wty, e *wexpr) *wstmt {
 	var v *wexpr
 	switch t.scalarOf().k {
 	case "u32":
@@ -1651,6 +1674,12 @@ func (g *wgen) switchStmt(depth int) *wstmt {
 		}
 		g.push()
 		c.body = g.stmts(1+g.c.rng.Intn(2), depth-1)
+		if g.o.callInSwitch && !g.inCont && g.c.chance(0.5) {
+			if st := g.storeOutCall(); st != nil {
+				g.f("call-in-switch-clause")
+				c.body = append([]*wstmt{st}, c.body...)
+			}
+		}
 		// explicit trailing break in some cases (valid WGSL; a validator must accept it)
 		if g.o.swBreak && g.c.chance(0.3) && (len(c.body) == 0 || !isJump(c.body[len(c.body)-1])) {
 			c.body = append(c.body, &wstmt{k: "break"})
